@@ -482,7 +482,7 @@ func LoopCarriedDefaults(p *core.Program, r *core.Report, rule string) {
 				}
 				n++
 				r.Bad(rule, fmt.Sprintf("%s: %s (a %s) is reset to its default for every element of the loop", fd.Key(), describeVar(v), types.TypeString(v.Type(), func(pk *types.Package) string { return pk.Name() })), p.Pos(c.assignPos),
-					fmt.Sprintf("`%s` gets its default before the loop, is overwritten inside it only when the current element says so, is used later in the same iteration and never after the loop: an element that does not set it inherits the value of an earlier element instead of the default (a port entry without protocol takes the previous entry's protocol; a peer without namespaceSelector taints the next peer), so the result depends on the order of the list", v.Name()))
+					fmt.Sprintf("`%s` gets its default before the loop, is overwritten inside it only when the current element says so, is used later in the same iteration and never after the loop: an element that does not set it inherits the value of an earlier element instead of the default (a port entry without protocol takes the previous entry's protocol; a peer without namespaceSelector taints the next peer), so the result depends on the order of the list", core.RefName(v)))
 			}
 		}
 	}
